@@ -342,9 +342,32 @@ static int do_enqueue (unsigned p, unsigned v, unsigned size)
   return rc;
 }
 
+/* is the thread sleeping in the kernel (state S in /proc/self/task/<tid>/stat)?  -1 = cannot tell */
+static int thread_sleeping (int tid)
+{
+  char path[64], buf[512];
+  FILE *f;
+  char *p;
+  snprintf (path, sizeof path, "/proc/self/task/%d/stat", tid);
+  f = fopen (path, "r");
+  if (!f)
+    return -1;
+  if (!fgets (buf, sizeof buf, f))
+    {
+      fclose (f);
+      return -1;
+    }
+  fclose (f);
+  p = strrchr (buf, ')');
+  return p && p[1] == ' ' ? p[2] == 'S' : -1;
+}
+
+static volatile int bw_tid;
+
 static void *bw_thread (void *arg)
 {
   (void) arg;
+  __atomic_store_n (&bw_tid, (int) syscall (SYS_gettid), __ATOMIC_RELEASE);
   bw.rc = do_enqueue (bw.p, bw.v, bw.size);
   __atomic_store_n (&bw.done, 1, __ATOMIC_RELEASE);
   return 0;
@@ -367,8 +390,27 @@ static void cmd_enq (unsigned p, unsigned v, unsigned size)
     {
       /* the call may sleep on not_full: make it from a helper thread and see whether it comes back */
       bw.p = p, bw.v = v, bw.size = size, bw.done = 0;
+      bw_tid = 0;
       pthread_create (&bw.th, 0, bw_thread, 0);
-      if (wait_flag (&bw.done, 100))
+      /* wait for a CONDITION, not for a time: the call has returned, or its thread sleeps in the kernel (on
+       * not_full: in this single-controller harness nothing else can make it sleep); seen twice in a row */
+      {
+        long end = now_ms () + LIVE_MS;
+        int asleep = 0;
+        while (!__atomic_load_n (&bw.done, __ATOMIC_ACQUIRE) && now_ms () < end && asleep < 5)
+          {
+            int tid = __atomic_load_n (&bw_tid, __ATOMIC_ACQUIRE);
+            int st = tid ? thread_sleeping (tid) : 0;
+            if (st < 0)
+              {
+                msleep (100);	/* no /proc: fall back to a grace period */
+                break;
+              }
+            asleep = st ? asleep + 1 : 0;
+            usleep (300);
+          }
+      }
+      if (__atomic_load_n (&bw.done, __ATOMIC_ACQUIRE))
         {
           pthread_join (bw.th, 0);
           emit ("enq %u %u %u %s", p, v, size, bw.rc ? "ok" : "fail");
@@ -845,7 +887,7 @@ static void *post_producer (void *arg)
         {
           long g = __atomic_add_fetch (&p->gen, 1, __ATOMIC_ACQ_REL);
           while (__atomic_load_n (&mt_ack, __ATOMIC_ACQUIRE) < g)
-            sched_yield ();
+            usleep (100);		/* no busy spinning: the consumer needs the CPU on a loaded machine */
           burst = 1 + (int) (rng_next (&p->seed) % 12);
         }
     }
